@@ -413,47 +413,67 @@ def _is_none_test(e, attr):
         ((isinstance(e.left, ast.Attribute) and e.left.attr == attr) or isinstance(e.left, ast.Name))
 
 
-def external_sector_guards(prog, check, rule):
-    """every cross-currency booking site is dominated by `ExternalSector is None -> raise`"""
-    n_sites = 0
-    for fn in prog.all_functions():
-        if fn.module.rel.endswith('external.py'):
-            continue
-        sites = []
-        g = None
-        for n in ast.walk(fn.node):
-            if isinstance(n, ast.Call) and call_name(n) in ('_SendMoney', '_ReceiveMoney', 'SetGoldPurchases'):
-                sites.append(n)
-        if not sites:
-            continue
-        g = cfgmod.build(fn)
-        check.saw(fn)
-        subst = {}
-        for n in ast.walk(fn.node):
-            if isinstance(n, ast.Assign) and isinstance(n.targets[0], ast.Name) and isinstance(n.value, ast.Attribute) \
-                    and n.value.attr == 'ExternalSector':
-                subst[n.targets[0].id] = True
+FX_SITES = ('_SendMoney', '_ReceiveMoney', 'SetGoldPurchases')
 
-        def pred(e):
-            if not (isinstance(e, ast.Compare) and len(e.ops) == 1 and isinstance(e.ops[0], (ast.Is, ast.Eq)) and
-                    isinstance(e.comparators[0], ast.Constant) and e.comparators[0].value is None):
-                return False
-            l = e.left
-            return (isinstance(l, ast.Attribute) and l.attr == 'ExternalSector') or (isinstance(l, ast.Name) and l.id in subst)
-        for c in sites:
-            node = None
-            for nd in g.stmt_nodes():
-                if nd.kind == 'stmt' and any(x is c for x in ast.walk(nd.ast)):
-                    node = nd
-            if node is None:
-                continue
-            t, lab = guard_dominates(g, node, pred, fn.node)
-            n_sites += 1
-            check.ob(rule, '%s::external-guard(%s)' % (fn.key, call_name(c)), t is not None,
-                     '%s:%d' % (fn.module.rel, c.lineno),
-                     'dominated by `%s` -> raise' % unparse(t.ast) if t is not None else
-                     'cross-currency booking reachable when the model has no external sector',
-                     'a cross-currency flow / supplier in a model without ExternalSector')
+
+def external_sector_guards(prog, check, rule):
+    """no cross-currency booking site is reachable on a feasible path when the model has no external sector.
+    Decided on every function with its private helpers inlined, by a path search that starts with
+    `<anything>.ExternalSector` bound to None and honours truthiness constants and correlated flags; a private helper
+    that is inlined at all of its call sites is judged there, not on its own."""
+    from ..inline import flatten
+    from ..dataflow import truth_search, trace
+    n_sites = 0
+    funcs = [fn for fn in prog.all_functions() if not fn.module.rel.endswith('external.py')]
+
+    def site_calls(node):
+        return [n for n in ast.walk(node) if isinstance(n, ast.Call) and call_name(n) in FX_SITES]
+    flats = {}
+    for fn in funcs:
+        fl = flatten(prog, fn)
+        if site_calls(fl.node):
+            flats[fn.key] = (fn, fl)
+    # private helpers judged at their callers
+    inlined_somewhere = set()
+    for fn, fl in flats.values():
+        inlined_somewhere.update(getattr(fl, 'inlined', ()))
+    skip = set()
+    for key, (fn, fl) in flats.items():
+        if key in inlined_somewhere and fn.name.startswith('_'):
+            textual = 0
+            covered = 0
+            for other in funcs:
+                k = sum(1 for c in ast.walk(other.node) if isinstance(c, ast.Call) and call_name(c) == fn.name)
+                if k:
+                    textual += k
+                    ofl = flatten(prog, other)
+                    if fn.key in getattr(ofl, 'inlined', ()) and not any(
+                            isinstance(c, ast.Call) and call_name(c) == fn.name for c in ast.walk(ofl.node)):
+                        covered += k
+            if textual and textual == covered:
+                skip.add(key)
+    for key, (fn, fl) in sorted(flats.items()):
+        if key in skip:
+            continue
+        check.saw(fn)
+        g = cfgmod.build(fl)
+        site_nodes = {}
+        for nd in g.stmt_nodes():
+            cs = [c for c in site_calls(nd.ast)] if nd.kind in ('stmt', 'test', 'for', 'with') and nd.ast is not None else []
+            if nd.kind == 'for':
+                cs = site_calls(nd.ast.iter)
+            if cs:
+                site_nodes[nd.id] = cs
+        hits, seen = truth_search(g, [g.entry], list(site_nodes), env0={'*.ExternalSector': (False, 'NONE')})
+        for nid, cs in sorted(site_nodes.items()):
+            for c in cs:
+                ok = nid not in hits
+                n_sites += 1
+                check.ob(rule, '%s::external-guard(%s)' % (fn.key, call_name(c)), ok, '%s:%d' % (fn.module.rel, c.lineno),
+                         'not reachable when the model has no external sector (an error is raised first)' if ok else
+                         'cross-currency booking reachable when the model has no external sector (lines %s)' % (
+                             ','.join(str(x) for x in trace(seen, hits[nid], g))),
+                         'a cross-currency flow / supplier in a model without ExternalSector')
     return n_sites
 
 
